@@ -316,6 +316,9 @@ class C15(PropBase):
         for _ in range(rng.choice([0, 0, 1, 3])):
             if nt:
                 st.append("trust %d %d %d" % (rng.below(nt), rng.below(4), rng.range(1, 6)))
+        if nt and rng.chance(1, 4):
+            # frame 0 of a thread (mostly the requesting one) keeps only some of its general-purpose registers valid
+            st.append("valid %d %d" % (rng.below(nt), rng.choice([0, 1, 5, 0x88, 0xff, 0x12, rng.below(256)])))
         if nt and rng.chance(1, 3):
             st.append("lasterr %d %d" % (rng.below(nt), rng.choice([0, 5, 0xC0000005, 1450, U32, 0x80070057, 87])))
         if rng.chance(1, 6):
@@ -580,6 +583,16 @@ class C15(PropBase):
                         return "crashing_thread.frames[%d]: registers %s" % (fi, "missing" if fi == 0 else "unexpected")
                     if regs is not None and any(not re.match(r"^0x([0-9a-f]{8}|[0-9a-f]{16})$", v) for v in regs.values()):
                         return "crashing_thread.frames[0].registers: malformed value"
+                    # json_registers lists the VALID general-purpose registers: when the state marks only the registers of a mask valid
+                    # (directive `valid`, indices below 8) the copy has exactly that many (every modelled register file has >= 8 registers)
+                    if regs is not None:
+                        masks = [int(a_[1]) for d_, a_ in self.st_directives(ext) if d_ == "valid" and int(a_[0]) == idx]
+                        if masks:
+                            want_n = bin(masks[-1] & 0xff).count("1")
+                            arch = (doc.get("system_info") or {}).get("cpu_arch")
+                            if (len(regs) != want_n) if arch in ("x86", "amd64", "arm", "arm64") else (len(regs) > want_n):
+                                return "crashing_thread.frames[0].registers lists %d registers, the context marks %d valid" % (len(regs), want_n)
+                            self.__dict__["_validchecks"] = self.__dict__.get("_validchecks", 0) + 1
                     # "the indexed thread plus ITS registers": frame 0 is the context frame, so the instruction-pointer register of the
                     # copy must be frame 0's offset (registers of another frame / thread would differ)
                     if regs is not None and a.get("trust") == "context":
@@ -696,7 +709,7 @@ class C15(PropBase):
         if " ST " not in " " + ext:
             return []
         toks = ext.split(" ST ", 1)[1].split()
-        ar = {"assert": 1, "cert": 2, "stat": 6, "req": 1, "trust": 3, "lasterr": 2, "limit": 4, "pid": 1, "inl": 5, "nobootargs": 0}
+        ar = {"assert": 1, "cert": 2, "stat": 6, "req": 1, "trust": 3, "lasterr": 2, "limit": 4, "pid": 1, "inl": 5, "nobootargs": 0, "valid": 2}
         out, i = [], 1
         while i < len(toks):
             d = toks[i]
@@ -881,7 +894,7 @@ class C15(PropBase):
                 idx.append(i)
             # the extracted UTF-8 codec / serialiser recurse once per code point of a document: give the driver a large stack
             res, dead = vlib.run_lines(["bash", "-c", "ulimit -s 2000000 2>/dev/null || ulimit -s unlimited 2>/dev/null; exec " + exe],
-                                       lines, timeout=600, mem_gb=8)
+                                       lines, timeout=(1800 if ctx.get("tier") == "quick" else 3300), mem_gb=8)
             if dead:
                 raise vlib.CheckFailure("c15 model driver died at %s" % (dead[0],))
             for n_, (i, line, r) in enumerate(zip(idx, lines, res)):
@@ -956,6 +969,7 @@ class C15(PropBase):
                         out.append({"case": ctx["cases"][i], "profile": prof, "found_input": True, "what": what,
                                     "model": mview[max(0, j - 80):j + 120], "impl": view[max(0, j - 80):j + 120]})
         ctx["info"]["member_coverage_reports_with_member_present"] = dict(sorted(self.__dict__.get("_cov", {}).items()))
+        ctx["info"]["crashing_thread_partially_valid_register_checks"] = self.__dict__.get("_validchecks", 0)
         ctx["info"]["frames_with_two_or_more_inlines"] = self.__dict__.get("_multi_inl", 0)
         ctx["info"]["crashing_thread_ip_register_equals_offset_checks"] = self.__dict__.get("_ipchecks", 0)
         ctx["info"]["address_display_32bit_platforms"] = self.__dict__.get("_wide32", {})
